@@ -993,29 +993,40 @@ def operator_classes(repo: Repo, rule: str):
         raise AnalysisError(rule, "module-level tuple `generator_types` not found")
     tags = [norm(e).split(".")[-1] for e in gts[0].value.elts]
     cls = repo.find(CLS, rule)
-    counts = {}  # attribute -> class tag counted
-    inf_attrs = None
-    for n in ast.walk(cls):
-        if isinstance(n, ast.Assign) and isinstance(n.targets[0], ast.Attribute):
-            a = n.targets[0].attr
-            v = n.value
-            if a == "_n_inf_order":
-                parts, todo = [], [v]
-                while todo:
-                    x = todo.pop()
-                    if isinstance(x, ast.BinOp) and isinstance(x.op, ast.Add):
-                        todo += [x.left, x.right]
-                    elif isinstance(x, ast.Attribute):
-                        parts.append(x.attr)
-                    else:
-                        raise AnalysisError(rule, f"`_n_inf_order = {norm(v)[:60]}` not understood")
-                inf_attrs = parts
-            elif isinstance(v, ast.Call) and call_name(v) == "sum" and len(v.args) == 1 and isinstance(v.args[0], ast.GeneratorExp) \
-                    and isinstance(v.args[0].elt, ast.Call) and call_name(v.args[0].elt) == "isinstance" and len(v.args[0].elt.args) == 2:
-                counts[a] = norm(v.args[0].elt.args[1]).split(".")[-1]
-    if inf_attrs is None or any(a not in counts for a in inf_attrs):
-        raise AnalysisError(rule, "how `_n_inf_order` counts the operator classes is not understood")
-    inf = {counts[a] for a in inf_attrs}
+    # how the instance counts its operators: the statements around the assignment of `_n_inf_order` are evaluated on models with one
+    # operator of a single class each; the classes for which `_n_inf_order` comes out as 1 are the infinite-order ones
+    from .concrete import Model, Obj
+    host = None
+    for fn in ast.walk(cls):
+        if isinstance(fn, ast.FunctionDef) and any(isinstance(n, ast.Assign) and isinstance(n.targets[0], ast.Attribute) and n.targets[0].attr == "_n_inf_order"
+                                                   for n in own_nodes(fn)):
+            host = fn
+    if host is None:
+        raise AnalysisError(rule, "the assignment of `_n_inf_order` was not found")
+    stmts = [st for st in host.body if isinstance(st, ast.FunctionDef) or (isinstance(st, ast.Assign) and (
+        isinstance(st.targets[0], ast.Name) or (isinstance(st.targets[0], ast.Attribute) and st.targets[0].attr.startswith("_n_"))))]
+    counts = {}
+    inf = set()
+    for t in tags:
+        m = Model(rule, "operator counts", names={"operators": (Obj(t, t),), "__classes__": tuple(tags) + ("SigmaPlus", "SigmaOpBase")},
+                  subclasses={"SigmaOpBase": {"SigmaMinus", "SigmaPlus"}})
+        env = {}
+        for st in stmts:
+            try:
+                m._block([st], env)
+            except AnalysisError:
+                continue  # a statement about something else (terms, placeholders, ...)
+        vals = {k.split(".", 1)[1]: v for k, v in m.paths.items() if "._n_" in k and isinstance(v, int)}
+        if "_n_inf_order" not in vals:
+            raise AnalysisError(rule, "how `_n_inf_order` counts the operator classes is not understood")
+        if vals["_n_inf_order"] == 1:
+            inf.add(t)
+        elif vals["_n_inf_order"] != 0:
+            raise AnalysisError(rule, f"`_n_inf_order` counts one {t} as {vals['_n_inf_order']}")
+        for a, v in vals.items():
+            if a != "_n_inf_order" and v == 1:
+                counts[a] = t
+    inf_attrs = []
     if not inf <= set(tags) or tags[:len(inf)] != [t for t in tags if t in inf]:
         raise AnalysisError(rule, f"infinite-order classes {sorted(inf)} are not the leading entries of generator_types {tags}")
     return tags, inf, counts
